@@ -202,6 +202,59 @@ func genSparse(salt int) func(m, n int) M {
 	}
 }
 
+// genSignMix: checkerboard signs, magnitudes 1..3, dominant diagonal of alternating sign.
+func genSignMix(m, n int) M {
+	a := newM(m, n)
+	for i := 0; i < m; i++ {
+		s := 0.0
+		for j := 0; j < n; j++ {
+			v := float64(1 + (h3(i, j, 30)+3)%3)
+			if (i+j)%2 == 1 {
+				v = -v
+			}
+			a.a[i*n+j] = v
+			s += math.Abs(v)
+		}
+		if i < n {
+			d := s + 1
+			if i%2 == 1 {
+				d = -d
+			}
+			a.a[i*n+i] = d
+		}
+	}
+	for j := 0; j < imin(m, n); j++ {
+		s := 0.0
+		for i := 0; i < m; i++ {
+			if i != j {
+				s += math.Abs(a.a[i*n+j])
+			}
+		}
+		if d := a.a[j*n+j]; math.Abs(d) <= s {
+			a.a[j*n+j] = math.Copysign(s+1, d)
+		}
+	}
+	return a
+}
+
+// genCluster: columns come in clusters of three that agree up to 2^-16: column
+// j is column 3*(j/3) of a diagonally dominant matrix plus a small dyadic
+// perturbation (nearly dependent columns, condition about 2^16).
+func genCluster(m, n int) M {
+	base := genDD(6)(m, n)
+	a := newM(m, n)
+	for j := 0; j < n; j++ {
+		g := j / 3 * 3
+		for i := 0; i < m; i++ {
+			a.a[i*n+j] = base.a[i*n+g]
+			if j != g {
+				a.a[i*n+j] += math.Ldexp(float64(h3(i, j, 31)), -16)
+			}
+		}
+	}
+	return a
+}
+
 // generalFams returns the families for general rectangular matrices; zero-column
 // families are produced for every column index below maxn when allZeroCols is
 // set, else for the first, a middle and the last column.
@@ -218,6 +271,8 @@ func generalFams(maxn int, allZeroCols bool) []fam {
 		// duplicate is a*(1/a), which need not be 1 (Dgetf2 scales by the reciprocal), so ok may be true.
 		{"duprow", genDupRow, never, false},
 		{"sparse", genSparse(0), never, false},
+		{"signmix", genSignMix, never, true},
+		{"cluster", genCluster, never, false},
 	}
 	var cols []int
 	if allZeroCols {
@@ -341,6 +396,53 @@ func genPSDRank1(n int) M {
 	return mul(v.T(), v)
 }
 
+// ldlFactors returns a unit upper triangular integer R with bandwidth kd and a positive integer diagonal D.
+func ldlFactors(n, kd int) (r M, d []float64) {
+	r = eye(n)
+	d = make([]float64, n)
+	for i := 0; i < n; i++ {
+		d[i] = float64(2 + i%2)
+		for j := i + 1; j < n && j <= i+kd; j++ {
+			r.a[i*n+j] = float64(h3(i, j, 40) % 2) // -1, 0, 1
+		}
+	}
+	return r, d
+}
+
+func rtdr(r M, d []float64) M {
+	n := r.r
+	dm := newM(n, n)
+	for i := range d {
+		dm.a[i*n+i] = d[i]
+	}
+	return mul(mul(r.T(), dm), r)
+}
+
+// genLDLNeg: A = R^T*D*R with unit triangular integer R and D positive except
+// D[k] = -1: all leading minors up to order k are positive, the k-th pivot of
+// the Cholesky factorization is -1 (the diagonal entry a_kk itself is usually positive).
+func genLDLNeg(k, kd int) func(n int) M {
+	return func(n int) M {
+		r, d := ldlFactors(n, imin(kd, imax(0, n-1)))
+		if k < n {
+			d[k] = -1
+		}
+		return rtdr(r, d)
+	}
+}
+
+// genZeroPiv: identity with the 2x2 block [1 1; 1 1] at rows k-1, k: the k-th pivot is exactly 1 - 1*1 = 0.
+func genZeroPiv(k int) func(n int) M {
+	return func(n int) M {
+		a := eye(n)
+		if k >= 1 && k < n {
+			a.a[(k-1)*n+k] = 1
+			a.a[k*n+k-1] = 1
+		}
+		return a
+	}
+}
+
 func symFams(maxn int, allNeg bool) []sfam {
 	fs := []sfam{
 		{"spd", genSPD(0), true, nil, true},
@@ -362,8 +464,25 @@ func symFams(maxn int, allNeg bool) []sfam {
 	for _, k := range ks {
 		k := k
 		fs = append(fs, sfam{fmt.Sprintf("negdiag%d", k), genNegDiag(k), false, func(n int) bool { return k < n }, false})
+		fs = append(fs, sfam{fmt.Sprintf("ldlneg%d", k), genLDLNeg(k, 2), false, func(n int) bool { return k < n }, false})
+		if k >= 1 {
+			fs = append(fs, sfam{fmt.Sprintf("zeropiv%d", k), genZeroPiv(k), false, func(n int) bool { return k < n }, false})
+		}
 	}
 	return fs
+}
+
+// posFam reports whether the family is one of the per-position families (name + index) and its index.
+func posFam(name string) (int, bool) {
+	for _, p := range []string{"negdiag", "ldlneg", "zeropiv", "zerocol", "zerodiag"} {
+		if len(name) > len(p) && name[:len(p)] == p {
+			var k int
+			if _, err := fmt.Sscanf(name[len(p):], "%d", &k); err == nil {
+				return k, true
+			}
+		}
+	}
+	return 0, false
 }
 
 func pickSFams(all []sfam, names ...string) []sfam {
